@@ -97,7 +97,7 @@ theorem abort_flowInv {s : State} (hi : FlowInv s) (n u : Nat) (d : Bool) (s' : 
     | zero => simp [abortFlow] at h
     | succ n => simp [abortFlow, deactivatePhase, hfu] at h
   | some f =>
-  rcases abort_ends_instance n s u d s' f hfu h with ⟨_, _, e, hne⟩ | ⟨f', hf', hl'⟩
+  rcases abort_ends_instance n s u d s' f hfu h with ⟨_, _, e, hne⟩ | ⟨f', hf', hl', _⟩
   · rw [e]
     exact hi.of_good (Good.setFlow_keep hfu ⟨rfl, rfl, rfl, rfl, rfl, Or.inl rfl, fun _ h => h, by simp⟩ rfl
       (Or.inr (fun ha _ => absurd ha hne)))
